@@ -25,6 +25,11 @@ type c11Case struct {
 	Locked     bool       `json:"locked"` // the caller itself already holds its thread
 	Prior      int        `json:"prior"`  // earlier loads (no_new_privs, no thread-sync) on other, pre-existing locked threads
 	Strace     bool       `json:"strace"`
+	// Own: what happened on the calling thread itself before (Locked callers only): "prior-no-nnp" = as root it loaded
+	// a filter without the bit (filter mode, bit 0); "prior-nnp" = it loaded one with the bit; "prctl-denied" = as root,
+	// an enclosing filter answers EPERM to prctl(PR_SET_NO_NEW_PRIVS): a requested bit cannot be set, so nothing may
+	// be installed.
+	Own string `json:"own,omitempty"`
 }
 
 func drawC11(t *rapid.T) c11Case {
@@ -54,6 +59,13 @@ func drawC11(t *rapid.T) c11Case {
 		// a history: other threads loaded filters of their own before; the bit is per thread
 		c.Prior = rapid.IntRange(1, 2).Draw(t, "prior")
 		c.Flag &^= 1 // a thread-sync would be refused because of the divergent filters, which is not C11's subject
+	}
+	if rapid.IntRange(0, 3).Draw(t, "withOwn") == 0 {
+		c.Locked, c.Strace = true, false
+		c.Own = []string{"prior-no-nnp", "prior-nnp", "prctl-denied"}[rapid.IntRange(0, 2).Draw(t, "own")]
+		if c.Own != "prior-nnp" {
+			c.Uid = 0
+		}
 	}
 	if c.Sched != (kjob.Sched{}) && c.Spinners < 2*c.GOMAXPROCS {
 		// keep every P busy, otherwise the descheduled goroutine simply resumes where it was
@@ -86,6 +98,18 @@ func checkC11(raw json.RawMessage) (ev.Result, error) {
 		pp.Groups[0].Names = []string{[]string{"getuid", "getgid"}[i%2]}
 		job.Steps = append(job.Steps, kjob.Step{Op: "load", Thread: 1 + i, Filter: &kjob.FilterSpec{Policy: pp, NNP: true, Flag: 0, HostArch: true}})
 	}
+	stOwn := len(job.Steps)
+	if c.Own != "" && !c.Locked {
+		return ev.Result{}, ev.Inconclusivef("own-thread history needs a locked caller")
+	}
+	switch c.Own {
+	case "prior-no-nnp", "prior-nnp":
+		pp := c10Policy()
+		pp.Groups[0].Names = []string{"getegid"}
+		job.Steps = append(job.Steps, kjob.Step{Op: "load", Thread: 0, Filter: &kjob.FilterSpec{Policy: pp, NNP: c.Own == "prior-nnp", Flag: 0, HostArch: true}})
+	case "prctl-denied":
+		job.Steps = append(job.Steps, kjob.Step{Op: "outer-deny-nnp-thread", Thread: 0})
+	}
 	stControl := len(job.Steps)
 	job.Steps = append(job.Steps, kjob.Step{Op: "control", Sched: &sched})
 	stBefore := len(job.Steps)
@@ -111,6 +135,16 @@ func checkC11(raw json.RawMessage) (ev.Result, error) {
 			return ev.Result{}, ev.Inconclusivef("prior load %d did not succeed", i)
 		}
 	}
+	switch c.Own {
+	case "prior-no-nnp", "prior-nnp":
+		if pl := rr.Find(stOwn, "load"); len(pl) != 1 || !pl[0].Nil {
+			return ev.Result{}, ev.Inconclusivef("the earlier load on the calling thread did not succeed")
+		}
+	case "prctl-denied":
+		if oe := rr.Find(stOwn, "outer-deny-nnp"); len(oe) != 1 || oe[0].Err != "" {
+			return ev.Result{}, ev.Inconclusivef("could not install the prctl-denying filter")
+		}
+	}
 	if len(le) != 1 || len(ce) != 1 || len(before) != 1 || len(after) != 1 {
 		return ev.Result{}, ev.Inconclusivef("events missing")
 	}
@@ -128,6 +162,10 @@ func checkC11(raw json.RawMessage) (ev.Result, error) {
 	if c.Prior > 0 {
 		res.Classes = append(res.Classes, "after-loads-on-other-threads")
 	}
+	if c.Own != "" {
+		desc += ", calling thread: " + c.Own
+		res.Classes = append(res.Classes, "calling-thread:"+c.Own, fmt.Sprintf("calling-thread:%s/nnp:%v", c.Own, c.NNP))
+	}
 	if ld.Panic != "" {
 		return res, fmt.Errorf("LoadFilter panicked: %s", ld.Panic)
 	}
@@ -137,7 +175,26 @@ func checkC11(raw json.RawMessage) (ev.Result, error) {
 			fc = append(fc, cap)
 		}
 	}
-	if c.NNP {
+	if c.NNP && c.Own == "prctl-denied" {
+		// the bit cannot be set: installing a filter all the same would install it without the requested bit
+		for _, cap := range fc {
+			if cap.NNP != 1 {
+				return res, fmt.Errorf("no_new_privs was requested and prctl(PR_SET_NO_NEW_PRIVS) is answered EPERM, yet LoadFilter went on to install the filter with the bit unset (returned nil: %v; %s)", ld.Nil, desc)
+			}
+		}
+		if ld.Nil {
+			return res, fmt.Errorf("no_new_privs was requested but could not be set (prctl answers EPERM); LoadFilter returned nil (%s)", desc)
+		}
+		bef := map[int]int{}
+		for _, s := range before[0].Status {
+			bef[s.Tid] = s.Filters
+		}
+		for _, s := range after[0].Status {
+			if old, ok := bef[s.Tid]; ok && old != s.Filters {
+				return res, fmt.Errorf("LoadFilter failed (%s), but Seccomp_filters of thread %d went %d -> %d (%s)", ld.Err, s.Tid, old, s.Filters, desc)
+			}
+		}
+	} else if c.NNP {
 		// requested: the load succeeds in every configuration, the bit is set before and on the installing thread
 		if !ld.Nil {
 			return res, fmt.Errorf("no_new_privs was requested, but LoadFilter failed (%s): %s [schedule point: %+v, control goroutine migrated: %v]", desc, ld.Err, ld.Sched, ce[0].Migrated)
@@ -157,20 +214,30 @@ func checkC11(raw json.RawMessage) (ev.Result, error) {
 		for _, s := range before[0].Status {
 			bef[s.Tid] = s.NNP
 		}
+		// (a thread-sync'ed installation by a thread that already has the bit hands the bit to the other threads: that is
+		// the kernel's doing, see seccomp_sync_threads)
+		callerHadBit := c.Own == "prior-nnp"
+		inherited := func(tid int) bool { return callerHadBit && c.Flag&1 != 0 && ld.Nil && tid != ld.Tid }
 		for _, s := range after[0].Status {
-			if old, ok := bef[s.Tid]; ok && old != s.NNP {
-				return res, fmt.Errorf("no_new_privs was not requested, but the bit of thread %d changed %d -> %d", s.Tid, old, s.NNP)
+			if old, ok := bef[s.Tid]; ok && old != s.NNP && !inherited(s.Tid) {
+				return res, fmt.Errorf("no_new_privs was not requested, but the bit of thread %d changed %d -> %d (%s)", s.Tid, old, s.NNP, desc)
 			}
-			if old, ok := bef[s.Tid]; s.NNP != 0 && !(ok && old == 1) {
-				return res, fmt.Errorf("no_new_privs was not requested, but thread %d has the bit set", s.Tid)
+			if old, ok := bef[s.Tid]; s.NNP != 0 && !(ok && old == 1) && !inherited(s.Tid) {
+				return res, fmt.Errorf("no_new_privs was not requested, but thread %d has the bit set (%s)", s.Tid, desc)
 			}
 		}
 		for _, cap := range fc {
-			if cap.NNP != 0 {
-				return res, fmt.Errorf("no_new_privs was not requested, but the installing thread has the bit set")
+			if old, ok := bef[cap.Tid]; ok && cap.NNP != old {
+				return res, fmt.Errorf("no_new_privs was not requested, but at the moment of installation the bit of the installing thread is %d, before the call it was %d (%s)", cap.NNP, old, desc)
+			}
+			if _, ok := bef[cap.Tid]; !ok && cap.NNP != 0 {
+				return res, fmt.Errorf("no_new_privs was not requested, but the installing thread has the bit set (%s)", desc)
 			}
 		}
-		if c.Uid != 0 {
+		if c.Uid != 0 && callerHadBit {
+			// the thread carries the bit from before: the kernel accepts the load, nothing is claimed
+			res.Classes = append(res.Classes, "unprivileged-load-with-inherited-bit(no-claim)")
+		} else if c.Uid != 0 {
 			if ld.Nil {
 				return res, fmt.Errorf("unprivileged load without no_new_privs returned nil")
 			}
